@@ -76,8 +76,15 @@ def _replay_order(rows):
         got_l = [bool(np.all(cone.is_inside(list(v)))) for v in lat[::5]]
         base = np.array([0.5, -1.25])
         got_d = [bool(np.all(order.dominates(np.array(v, dtype=float) * 0.25 + base, base))) for v in lat]
+        # the cone matrix as the user may give it (integer ndarray / nested lists, as in the class docstring), fractional vectors
+        cone_i = OrderingCone(np.array(W))
+        cone_l = OrderingCone([list(r) for r in W])
+        got_i = [bool(np.all(cone_i.is_inside(np.array(v, dtype=float) * 0.25))) for v in lat]
+        got_l2 = [bool(np.all(cone_l.is_inside(np.array(lat, dtype=float) * 0.25)[k])) for k in range(len(lat))]
+        got_di = [bool(np.all(PolyhedralConeOrder(cone_i).dominates(np.array(v, dtype=float) * 0.25 + base, base))) for v in lat]
         for name, got, e in (("is_inside-batched", got_b, exp), ("is_inside-single", got_s, exp), ("is_inside-list", got_l, exp[::5]),
-                             ("dominates", got_d, exp)):
+                             ("dominates", got_d, exp), ("is_inside-intW-fractional", got_i, exp), ("is_inside-listW-fractional", got_l2, exp),
+                             ("dominates-intW-fractional", got_di, exp)):
             if got != e:
                 k = [i for i in range(len(e)) if got[i] != e[i]][0]
                 bad.append({"kind": name, "W": W, "vector": (lat if name != "is_inside-list" else lat[::5])[k], "expected": e[k], "got": got[k]})
@@ -188,7 +195,7 @@ def run(ctx):
 
 def replay(body):
     c = body["case"]
-    if c["kind"] in ("is_inside-batched", "is_inside-single", "is_inside-list", "dominates"):
+    if c["kind"].startswith("is_inside") or c["kind"].startswith("dominates"):
         from harness.tlc import run as _r  # noqa: F401
         G = 2
         inside = set()
